@@ -132,7 +132,7 @@ class Kinds(object):
         if i is None:
             return UNKNOWN
         # a guard on the type of the same value / of a reload of the same place
-        if at is not None and self._guarded_nonalt(f, i, at):
+        if at is not None and (self._guarded_nonalt(f, i, at) or self._edge_guarded(f, i, at)):
             return NONALT
         if i.op == "alloca":
             return NONALT if not self._type_stores(f, i, want_alt=True) else ALT
@@ -216,6 +216,57 @@ class Kinds(object):
         if want_alt:
             return [c for c in out if c == self.alt]
         return out
+
+    def _edge_guarded(self, f, i, at):
+        """every way into the block of `at' carries the fact `value is NULL' or `type of value != YAEP_ALT'
+        (the exits of  `for (; v != NULL && v->type == YAEP_ALT; ..)', including the phi-merged form of `&&')"""
+        b = at.block
+        preds = [x for x in b.preds if f.reachable(x)]
+        if not preds:
+            return False
+
+        def proves(c, truth):
+            """icmp c evaluated to `truth' implies NULL / non-ALT for value i"""
+            if c is None or c.op != "icmp" or c.d["pred"] not in ("eq", "ne"):
+                return False
+            equal = (c.d["pred"] == "eq") == truth
+            a0 = strip_casts(f, c.ops[0])
+            if strip_casts(f, c.ops[1]).get("k") == "null" and a0.get("v") == i.id:
+                return equal
+            tl = f.inst(a0)
+            if const_int(c.ops[1]) == self.alt and tl is not None and tl.op == "load":
+                tp = resolve_addr(f, tl.ops[0])
+                if (tp.last_field() or "").endswith("yaep_tree_node.type") and tp.root[0] == "val" and strip_casts(f, tp.root[1]).get("v") == i.id:
+                    return not equal
+            return False
+
+        def branch_fact(pn, target):
+            t = f.bmap[pn].term
+            if t is None or t.op != "br" or len(t.ops) != 3:
+                return None
+            return (f.inst(t.ops[0]), t.ops[2]["v"] == target, t.ops[0])
+        for pn in preds:
+            bf = branch_fact(pn, b.name)
+            if bf is None:
+                return False
+            c, truth, cop = bf
+            if c is not None and c.op == "phi":
+                # `a && b' merged: every feasible incoming path must prove the fact
+                for (v, q) in c.d["incoming"]:
+                    k = const_int(v)
+                    if k is not None:
+                        if bool(k) != truth:
+                            continue          # this path goes to the other successor
+                        qf = branch_fact(q, pn)
+                        if qf is None or not proves(qf[0], qf[1]):
+                            return False
+                    else:
+                        if not proves(f.inst(v), truth):
+                            return False
+                continue
+            if not proves(c, truth):
+                return False
+        return True
 
     def _guarded_nonalt(self, f, i, at):
         """the use `at' is controlled by  type(<same value or a load of the same place>) != YAEP_ALT"""
@@ -583,3 +634,44 @@ def rule_slot_pairing(ctx, rep, config="c-lib"):
                               "has its own translation gets a second one -- an ALT node in a one-parse tree -- and the intended field stays empty)" % (
                                   "parent's" if nk == "parent" else "state's own", "state's parent_disp" if ik == "parent" else "rule's order[pos]"), where=g.where(), witness=[g.where(), c_.where()])
     rep.floor("C03-slot", "slot expressions", n, 8)
+
+
+def rule_list_owner(ctx, rep, config="c-lib"):
+    rep.rule("C03-owner", "a list of alternatives has one owner: prune_to_minimal rewrites the `next' links of a list in place, so a node pointer that copy_anode stores into "
+                          "the copy (a child slot, or the `next' of a cell it made) is NULL, a cell allocated for the copy, or a node known not to be an ALT cell -- the "
+                          "cells of the original's lists are never shared with the copy")
+    p = ctx.prog(config)
+    from .r11 import KINDS
+    alt = [v for v, nme in KINDS.items() if nme == "YAEP_ALT"][0]
+    K = Kinds(p, alt)
+    f = p.fn("copy_anode")
+    rep.cover(p, [f.name])
+    n = 0
+    for s in f.all_insts():
+        if s.op != "store":
+            continue
+        pa = resolve_addr(f, s.ops[1])
+        if pa.root[0] == "alloca":
+            continue
+        v = strip_casts(f, s.ops[0])
+        vi = f.inst(v)
+        ty = (vi.ty if vi is not None else (f.args[v["v"]]["ty"] if v.get("k") == "a" else ""))
+        if "yaep_tree_node*" not in (ty or "") or (ty or "").endswith("**"):
+            continue
+        lf = pa.last_field() or ""
+        if lf.endswith("yaep_alt.node"):
+            continue   # the alternative itself is shared (decided by C03-alt)
+        n += 1
+        key = "copy_anode/node-store#%d" % n
+        if v.get("k") == "null" or (vi is not None and via_global(f, vi, "parse_alloc")):
+            rep.ok("C03-owner", key, sample={"store": s.where(), "value": "fresh / NULL"})
+            continue
+        K.notes = []
+        k = K.kind(f, s.ops[0], s)
+        if k == NONALT:
+            rep.ok("C03-owner", key, sample={"store": s.where(), "value": "not an ALT cell"})
+        else:
+            rep.violation("C03-owner", key, "copy_anode stores a node pointer that can be a cell of the original node's list of alternatives into the copy: both nodes then own the "
+                          "same list, and when the minimal cost translations are chosen the first owner relinks it -- the second owner sees a truncated list (minimal "
+                          "translations missing, or a non-minimal cost)", where=s.where(), witness=[s.where()] + K.notes[:3])
+    rep.floor("C03-owner", "node pointers stored by copy_anode", n, 1)
